@@ -266,17 +266,40 @@ func (a *Operator) useHexEscapes(input string) string {
 // applied to subexpressions, e.g., `...(?m:...)...`
 func (o *Operator) dontUseFlagsForMetaCharacters(input string) string {
 	result := input
+	// An escaped parenthesis followed by `?i:` or similar is not a flag group
+	// but a literal parenthesis (e.g., `\(?i:`), it must be left alone.
 	flagsStartRegexp := regexp.MustCompile(`\(\?[-misU]+\)`)
-	result = flagsStartRegexp.ReplaceAllLiteralString(result, "")
-
-	flagGroupStartRegexp := regexp.MustCompile(`\(\?[-misU]+:`)
+	searchStart := 0
 	for {
-		location := flagGroupStartRegexp.FindStringIndex(result)
-		if len(location) > 0 {
-			result = o.removeGroup(result, location[0], location[1], false)
-		} else {
+		location := flagsStartRegexp.FindStringIndex(result[searchStart:])
+		if len(location) == 0 {
 			break
 		}
+		start := searchStart + location[0]
+		end := searchStart + location[1]
+		if utils.IsEscaped(result, start) {
+			searchStart = end
+			continue
+		}
+		result = result[:start] + result[end:]
+		searchStart = start
+	}
+
+	flagGroupStartRegexp := regexp.MustCompile(`\(\?[-misU]+:`)
+	searchStart = 0
+	for {
+		location := flagGroupStartRegexp.FindStringIndex(result[searchStart:])
+		if len(location) == 0 {
+			break
+		}
+		groupStart := searchStart + location[0]
+		bodyStart := searchStart + location[1]
+		if utils.IsEscaped(result, groupStart) {
+			searchStart = bodyStart
+			continue
+		}
+		result = o.removeGroup(result, groupStart, bodyStart, false)
+		searchStart = groupStart
 	}
 	return result
 }
